@@ -174,11 +174,13 @@ CHECKS = {
 GEN_KEYMAP = lambda k: -1 if k < 0 else min(15, 3 * k)
 
 
-def gen_scripts(seed, per_worker, workers, max_ops, pick_per_tag, timeout, repair=False, require_tag=None):
+def gen_scripts(seed, per_worker, workers, max_ops, pick_per_tag, timeout, repair=False, require_tag=None, big=False):
     d = c.scratch('gen')
     outdir = os.path.join(d, 'out'); os.makedirs(outdir)
     cfg = open(os.path.join(c.SPEC, 'LsmGen.cfg')).read()
     cfg = cfg.replace('OutDir = "/tmp/lsmgen_out"', 'OutDir = "%s"' % outdir).replace('MaxOps = 14', 'MaxOps = %d' % max_ops)
+    if big:
+        cfg = cfg.replace('WithBig = FALSE', 'WithBig = TRUE')
     if repair:
         cfg = cfg.replace('AllowRepair = FALSE', 'AllowRepair = TRUE').replace('INVARIANT ReadLatest\n', 'INVARIANT ReadLatestOrD1\nINVARIANT IterLatest\n').replace('INVARIANT Recency\n', '')
     cfgp = os.path.join(d, 'gen.cfg'); open(cfgp, 'w').write(cfg)
@@ -217,7 +219,7 @@ def script_text(rec):
     lines = []
     for o in rec['ops']:
         op = o['op']
-        if op == 'put': lines.append('put %d' % GEN_KEYMAP(o['a']))
+        if op == 'put': lines.append('put %d%s' % (GEN_KEYMAP(o['a']), ' 1150000' if o['b'] == 1 else ''))
         elif op == 'del': lines.append('del %d' % GEN_KEYMAP(o['a']))
         elif op == 'flush': lines += ['flush', 'getall']
         elif op == 'reopen': lines += ['reopen', 'getall']
@@ -232,6 +234,17 @@ def script_text(rec):
 def gen_layer(prop, tier, seed, out, mc):
     quick = tier == 'quick'
     chosen, stats, d = gen_scripts(seed, 150 if quick else 2500, 8, 14, 5 if quick else 60, 120 if quick else 900)
+    if chosen is not None:
+        # second generation: values above max_file_size, so that one user key is split over two files of a level
+        chosen_b, stats_b, d_b = gen_scripts(seed + 1, 150 if quick else 2500, 8, 14, 4 if quick else 60, 120 if quick else 900, big=True)
+        if chosen_b is None:
+            chosen, stats = None, stats_b
+        else:
+            for rec in chosen_b: rec['big'] = True
+            chosen = chosen + chosen_b
+            stats['big'] = {k: v for k, v in stats_b.items() if k in ('generated', 'chosen', 'tag_counts')}
+            # scripts are written into d; the big run's scratch is not needed any more
+            c.rmtree(d_b)
     if chosen is None:
         r = stats
         rd = c.replay_dir(prop, 'gen')
@@ -243,7 +256,7 @@ def gen_layer(prop, tier, seed, out, mc):
     jobs = []
     for i, rec in enumerate(chosen):
         sp = os.path.join(d, 's%d.txt' % i); open(sp, 'w').write(script_text(rec))
-        ex = sr.Exec(seed * 1000 + i, 0, 'mixed', bits=0); ex.script = sp; ex.tags = rec['tags']
+        ex = sr.Exec(seed * 1000 + i, 0, 'mixed', bits=(1 << 17) if rec.get('big') else 0); ex.script = sp; ex.tags = rec['tags']
         jobs.append(ex)
     c.pmap(lambda ex: sr.run_exec(exe, ex, env={'VERIF_SCRIPT': ex.script}), jobs, c.NCPU)
     api = []; struct = []; owners = []
